@@ -25,7 +25,17 @@ let cmd_ext (x : sx) : sx =
         L [sx_of_lat (c14_extreme_spec a b true); sx_of_lat (c14_extreme_spec a b false)]
     | _ -> failwith "ext: expected (a b)") (match x with L l -> l | _ -> failwith "ext")
 
+(* (v1 v2 ...) corners in traversal order -> (model_has_north model_has_south exact_north exact_south), E = raises *)
+let cmd_poles (x : sx) : sx =
+  let vs = list_of_sx vec_of_sx x in
+  let es = c13_cycle vs in
+  let ob = function None -> A "E" | Some true -> A "1" | Some false -> A "0" in
+  L [ ob (c13_pole_inside true es); ob (c13_pole_inside false es);
+      sx_of_bool (c13_pole_in_face ((z_of_int 0, z_of_int 0), z_of_int 1) es);
+      sx_of_bool (c13_pole_in_face ((z_of_int 0, z_of_int 0), z_of_int (-1)) es) ]
+
 let commands : (string * (sx -> sx)) list = [
+  "poles", cmd_poles;
   "bounds", cmd_bounds;
   "ext", cmd_ext;
 ]
